@@ -153,7 +153,9 @@ pub fn render_yp(left: &[char], right: &[char], t: &[YP]) -> String {
 
 pub struct C07;
 
-const TAB_ALPHA: &[&str] = &["a", "b", "c", "A", "Ａ", "ア", "ｱ", "ﾞ", "㍿", "é", "É", "ー", "漢", "ǅ", "Σ"];
+const TAB_ALPHA: &[&str] = &["a", "b", "c", "A", "Ａ", "ア", "ｱ", "ﾞ", "㍿", "é", "É", "ー", "漢", "ǅ", "Σ", "𠮷", "\u{e0100}", "😀"];
+/// alphabet of the enumerated keys of big tables (1-3 symbols: short keys are prefixes and infixes of longer ones)
+const BIG_ALPHA: &[&str] = &["ぁ", "い", "ぅ", "え", "お", "か", "ｶ", "ﾞ", "う", "ぃ", "𠮷", "z"];
 
 pub fn rewrite_table() -> BoxedStrategy<String> {
     let keych = select(TAB_ALPHA);
@@ -161,8 +163,27 @@ pub fn rewrite_table() -> BoxedStrategy<String> {
     let pair = (vec(keych, 1..=3).prop_map(|v| v.concat()), vec(valch, 1..=2).prop_map(|v| v.concat()));
     let ignore = select(vec!["Ａ", "㍿", "É", "ﷺ", "ｱ", "a", "Ⅲ", "A", "ǅ", "ア"]);
     let ext = (any::<u16>(), select(TAB_ALPHA), select(vec!["y", "ガ", "A", "京"]));
-    (vec(pair, 0..8), vec(ext, 0..4), vec(ignore, 0..4))
-        .prop_map(|(mut pairs, exts, ign)| {
+    // tables of hundreds of keys (sizes around 2^k up to 1,100; the shipped table has 182)
+    let big = prop::option::weighted(0.04, (crate::gen::boundary_len(1100), any::<u16>()));
+    (vec(pair, 0..8), vec(ext, 0..4), vec(ignore, 0..4), big)
+        .prop_map(|(mut pairs, exts, ign, big)| {
+            if let Some((n, rot)) = big {
+                let b = BIG_ALPHA.len();
+                for i in 0..n {
+                    // every third enumerated key is left out so that longest-match has gaps to fall into
+                    let j = (i * 3 + rot as usize % 3) / 2;
+                    let key = if j < b {
+                        BIG_ALPHA[j].to_string()
+                    } else if j < b + b * b {
+                        let k = j - b;
+                        format!("{}{}", BIG_ALPHA[k / b], BIG_ALPHA[k % b])
+                    } else {
+                        let k = (j - b - b * b) % (b * b * b);
+                        format!("{}{}{}", BIG_ALPHA[k / (b * b)], BIG_ALPHA[(k / b) % b], BIG_ALPHA[k % b])
+                    };
+                    pairs.push((key, format!("K{}", i)));
+                }
+            }
             // keys that extend other keys by one symbol
             for (i, c, v) in exts {
                 if !pairs.is_empty() {
@@ -191,6 +212,7 @@ fn table_text(max: usize) -> BoxedStrategy<Vec<TP>> {
     let ch = prop_oneof![
         6 => any::<u16>().prop_map(TP::Key),
         8 => select(TAB_ALPHA).prop_map(|s| TP::S(s.to_string())),
+        2 => select(BIG_ALPHA).prop_map(|s| TP::S(s.to_string())),
         3 => pool_char().prop_map(|c| TP::S(c.to_string())),
         1 => select(vec!["㌀", "ﷺ", "Ⅲ", "ｶﾞ", "Ｚ", "ß", "İ", "ǅ", "ǈ", "ᾈ", "ſ", "K", "Å"]).prop_map(|s| TP::S(s.to_string())),
     ];
@@ -289,7 +311,7 @@ impl Property for C07 {
         "C07"
     }
     fn rule(&self) -> &'static str {
-        "cases: (a) a generated rewrite table (0-10 pairs over a 15-symbol alphabet so that keys are prefixes of other keys, keys needing NFKC / \
+        "cases: (a) a generated rewrite table (0-10 pairs over an 18-symbol alphabet incl. astral characters and a variation selector; in 4 % of the tables up to 1,100 further enumerated keys of 1-3 symbols so that keys are prefixes of other keys, keys needing NFKC / \
          lower-casing, 0-4 exempt characters that may also start keys) and 1-6 texts over the same alphabet + pool characters: the plugin's output \
          (public trait, fresh buffer) must equal the reference (longest key at position, else lower-case then NFKC unless exempt) and must satisfy \
          norm(x|y) == norm(x)|norm(y) for suffixes y that flip the fast/slow path; (b) prolonged-sound-mark settings x texts against 'maximal runs of \
